@@ -66,19 +66,19 @@ func genJSONValue(t *simrt.Tape, depth int, big bool) any {
 }
 
 type c19Struct struct {
-	Name  string         `json:"name"`
-	N     int            `json:"n"`
-	Tags  []string       `json:"tags"`
-	Inner map[string]any `json:"inner"`
+	Name  string          `json:"name"`
+	N     int             `json:"n"`
+	Tags  []string        `json:"tags"`
+	Inner map[string]any  `json:"inner"`
 	Raw   json.RawMessage `json:"raw"`
 }
 
 type c19Item struct {
-	doc      []byte // the bytes on the wire
-	valid    bool   // valid JSON for the target
-	target   int    // 0 interface{}, 1 struct, 2 RawMessage, 3 []byte
-	overLim  bool
-	desc     string
+	doc     []byte // the bytes on the wire
+	valid   bool   // valid JSON for the target
+	target  int    // 0 interface{}, 1 struct, 2 RawMessage, 3 []byte
+	overLim bool
+	desc    string
 }
 
 func jsonEquivalent(a, b []byte) bool {
